@@ -75,6 +75,8 @@ def main():
             return ("C17",)
         if name.endswith(("_pick", "_index")) and name.split("_")[1] in ("worker", "behaviour", "gather"):
             return ("C15",)                     # which granted request a node commits to, and the index it records
+        if name.endswith(("_probe", "_probe_pushes", "_index_probe")):
+            return ("C09",)                     # the non-blocking paths: which edge is probed, push or drop
         if name.endswith("_withdraw"):
             return ("C10",)                     # ... and the requests it withdraws
         if name == "Sink_cycle_increment" or name.endswith(("_level_increment", "_level_count")):
@@ -88,7 +90,7 @@ def main():
                           ("theories/Edges/TieBelt.vo", ("C12", "C13")),
                           ("theories/Nodes/TieNodes.vo", ("C08", "C10", "C15", "C16")),
                           ("theories/Factory/TieStats.vo", ("C14", "C17", "C18")),
-                          ("theories/Factory/TieCommit.vo", ("C10", "C15"))):
+                          ("theories/Factory/TieCommit.vo", ("C09", "C10", "C15"))):
         if pid in props:
             okt, logt = lib.build_coq_target(target)
             if not okt:
